@@ -3,6 +3,7 @@ the format's own requirements -- the same dialect means the same logical documen
 import harness.real  # noqa: F401  (puts the repository working tree on sys.path)
 import dataclasses
 import json
+import uuid
 from typing import NamedTuple, Optional
 
 
@@ -28,6 +29,7 @@ class Doc:
     items: list = dataclasses.field(default_factory=lambda: [1, 2])
     inner: In = dataclasses.field(default_factory=In)
     s: str = "s"
+    u: uuid.UUID = uuid.UUID(int=7)
 
 
 def run(rep, tier):
@@ -50,6 +52,9 @@ def run(rep, tier):
         "namedtuple_as_dict": {"namedtuple_as_dict": True},
         "no_copy_collections": {"no_copy_collections": (list, dict)},
         "serialization_strategy": {"serialization_strategy": {str: {"serialize": lambda v: v.upper()}}},
+        # a ONE-DIRECTION entry for a type some format dialects customise themselves (orjson keeps UUID native): layering the
+        # user's dialect over a format dialect must not write anything back into the user's dialect
+        "deserialize_only_strategy": {"serialization_strategy": {uuid.UUID: {"deserialize": uuid.UUID}}},
     }
     parsers = {
         "json": (JSONEncoder, json.loads),
@@ -90,6 +95,13 @@ def run(rep, tier):
             if doc != exp:
                 rep.violation("codec-dialect-option", {"format": fname, "option": oname, "expected": _j(exp), "actual": _j(doc),
                                                        "replay_module": "harness.checks.c13_formats"})
+        # dialects are isolated: having been a codec's default_dialect in every format, the SAME dialect class still means the
+        # same basic document for a codec created afterwards
+        n += 1
+        again = BasicEncoder(Doc, default_dialect=D).encode(value)
+        if again != basic:
+            rep.violation("codec-dialect-option", {"format": "basic (after the format codecs)", "option": oname, "expected": _j(basic), "actual": _j(again),
+                                                   "replay_module": "harness.checks.c13_formats"})
     rep.count(n)
     rep.cov["traces_validated_against_impl"] += n
     rep.sample({"part": "codec default_dialect", "formats": sorted(parsers), "options": sorted(options)})
